@@ -117,7 +117,7 @@ def _observables(backend, shots=0):
     import emu_sv as sv
 
     mod = sv if backend == "sv" else m
-    obs = [mod.Occupation(evaluation_times=[0.5, 1.0]), mod.CorrelationMatrix(evaluation_times=[1.0]), mod.Energy(evaluation_times=[0.5, 1.0]), mod.EnergySecondMoment(evaluation_times=[1.0])]
+    obs = [mod.Occupation(evaluation_times=[0.5, 1.0]), mod.CorrelationMatrix(evaluation_times=[1.0]), mod.Energy(evaluation_times=[0.2, 0.5, 1.0]), mod.EnergySecondMoment(evaluation_times=[0.2, 1.0])]  # 0.2: before an SLM mask ends
     if shots:
         obs.append(mod.BitStrings(evaluation_times=[1.0], num_shots=shots))
     return obs
@@ -151,7 +151,7 @@ def _reference(case, dt=10):
     occ = {0.5: np.zeros(n), 1.0: np.zeros(n)}
     corr = np.zeros((n, n))
     born = {"0" * n: 1.0}
-    energy = {0.5: 0.0, 1.0: 0.0, "m2": 0.0, "scale": 1.0}
+    energy = {0.2: 0.0, 0.5: 0.0, 1.0: 0.0, "m2": 0.0, "scale": 1.0}
     if keep:
         spec = _spec(case["shape"], case["kind"], keep)
         Ls = None
@@ -159,7 +159,7 @@ def _reference(case, dt=10):
             L = np.zeros((2, 2), dtype=complex)
             L[0, 1] = np.sqrt(0.8)
             Ls = R.embed_all([L], len(keep), 2)
-        ref = runner.Ref(spec, {"dt": dt, "eval": [0.5, 1.0]}, slm_rule="mid", Ls=Ls)
+        ref = runner.Ref(spec, {"dt": dt, "eval": [0.2, 0.5, 1.0]}, slm_rule="mid", Ls=Ls)
         if case["other"] == "nojump_relaxation":
             # no-jump trajectory: evolution under H - i/2 sum L^dag L, observables of the NORMALISED state
             L = np.zeros((2, 2), dtype=complex)
@@ -171,7 +171,7 @@ def _reference(case, dt=10):
         for t in (0.5, 1.0):
             o = ref.observables(t)
             occ[t][keep] = o["occupation"]
-        for t in (0.5, 1.0):
+        for t in (0.2, 0.5, 1.0):
             energy[t] = float(ref.observables(t)["energy"])
         energy["m2"] = float(ref.observables(1.0)["energy_second_moment"])
         energy["scale"] = max(1.0, ref.max_norm_H())
@@ -219,7 +219,7 @@ def run_case(case):
         return result(False, sig=f"correlation|{case['backend']}", msg=f"{label}: correlation matrix {np.round(gc, 6).tolist()} but the reduced register gives {np.round(corr, 6).tolist()}", outcome="corr")
     if case["other"] == "none":
         # energies: dark atoms contribute nothing (no drive, no interaction, ground state)
-        for t in (0.5, 1.0):
+        for t in (0.2, 0.5, 1.0):
             e = float(np.real(runner.to_np(runner.get_at(res, "energy", t))))
             if abs(e - energy[t]) > tol * 10 * energy["scale"]:
                 return result(False, sig=f"energy|{case['backend']}|{case['kind']}", msg=f"{label}: energy at t={t} is {e:.6f} but the reduced register gives {energy[t]:.6f}", outcome="energy")
